@@ -47,6 +47,11 @@ var c08Programs = [][]string{
 	// is required again it has not presented it
 	{"set:Pw1", "start", "new:0", "probe:0", "remove", "probe:0", "set:Pw2", "probe:0", "auth:0:Pw1", "probe:0", "auth:0:Pw2", "probe:0"},
 	{"set:Pw1", "start", "new:0", "remove", "probe:0", "probe:0", "set:Pw1", "probe:0", "new:1", "probe:1"},
+	// CONFIG SET requirepass by one connection must not touch what the OTHER connections are:
+	// the one that authenticated with the old password stays authorized, the one whose AUTH
+	// was refused (although it offered what is the password now) stays unauthorized
+	{"set:Pw1", "start", "new:0", "auth:0:Pw1", "new:1", "auth:1:Pw1", "probe:1", "cfg:0:Pw2", "probe:1", "probe:0", "new:2", "probe:2", "auth:2:Pw2", "probe:2"},
+	{"set:Pw1", "start", "new:0", "auth:0:Pw1", "new:1", "auth:1:Pw2", "probe:1", "cfg:0:Pw2", "probe:1", "auth:1:Pw2", "probe:1"},
 	// the password re-applied or changed by an application goroutine (bgset) or by an
 	// authorized client (bgcfg) WHILE another client connects and tries its luck: there
 	// is no moment at which the gate is open
